@@ -1,1 +1,185 @@
-/-! C19 — property theorems (stub; no obligations yet) -/
+import Ypv.Lemmas.Rotate
+import Ypv.Lemmas.Save
+/-!
+# C19 — EYAML key rotation re-keys every secret once and touches nothing else
+
+The model (`Ypv/Model/Rotate.lean`) walks the document the way `eyaml_rotate_keys.main` does, with
+an abstract cipher.  `decryptValue C k s` is the tool's own notion of "the plaintext of the value
+`s` under key `k`" (`decrypt_eyaml`: blanks and line breaks removed, the command's output
+`rstrip`ped, an empty or unchanged answer is a failure).  The cipher laws are the hypotheses
+`Laws C old new` (never axioms):
+
+* `roundtrip`  a plaintext encrypted under the new key decrypts under the new key to itself,
+* `wrongKey`   and does not decrypt under the old key,
+* `marked`     a ciphertext carries the `ENC[` marker.
+
+`Rel (Good C old new) d d'` says: `d'` has the same shape, keys, order and anchors as `d`; every
+encrypted scalar of `d` became a scalar that decrypts under the new key to the plaintext it had
+under the old key and no longer decrypts under the old key; every other scalar is identical.
+
+Known findings excluded by explicit hypotheses (witnesses below): a plaintext that itself looks
+encrypted is stored raw (C19-F2, `WF`); a document that is a single scalar is not searched
+(C19-F3, `isContainer`); trailing blanks of a plaintext are lost — invisible at the level of
+`decryptValue`, whose answer is already `rstrip`ped (C19-F1).
+-/
+namespace Ypv.C19
+open Ypv Ypv.Rotate
+
+def isContainer : Node → Bool
+  | .seq .. | .map .. => true
+  | _ => false
+
+/-- Full statement (not provable for the pinned code, see C19-F2 / C19-F3):
+`∀ d, AnchorsConsistent d → (rotate C old new d).2.failed = false → Rel (Good C old new) d (rotate C old new d).1`.
+
+Proved: for every document whose root is a sequence or mapping, whose anchors name one node each
+and none of whose plaintexts looks encrypted itself (`WF`), a run that ends with status 0 has
+re-keyed every encrypted value and changed nothing else.  Missing for the full statement: the
+two input classes of the known findings C19-F2 and C19-F3. -/
+theorem rotate_rekeys_partial (C : Cipher) (old new : Str) (L : Laws C old new)
+    (tbl : Str → Option Node) (d : Node) (hroot : isContainer d = true)
+    (hwf : WF C old tbl d) (hok : (rotate C old new d).2.failed = false) :
+    Rel (Good C old new) d (rotate C old new d).1 := by
+  have hinv : Inv C old new tbl St.init.seen := by
+    intro an n' h; simp [St.init] at h
+  cases d with
+  | scalar a v => simp [isContainer] at hroot
+  | set a ms => simp [isContainer] at hroot
+  | seq a xs => exact (rotNode_ok C old new L tbl _ _ hwf hinv hok).1
+  | map a es => exact (rotNode_ok C old new L tbl _ _ hwf hinv hok).1
+
+/-- What `Good` gives for one encrypted scalar, spelled out. -/
+theorem good_secret (C : Cipher) (old new : Str) (s : Str) (v' : Scalar) (hs : isEyaml s = true)
+    (h : Good C old new (.str s) v') :
+    ∃ s' p, v' = .str s' ∧ decryptValue C old s = some p ∧ decryptValue C new s' = some p ∧
+      decryptValue C old s' = none := by
+  unfold Good at h
+  simp only [isSecret, hs, if_true] at h
+  obtain ⟨s0, s', p, h0, h1, h2, h3, h4, _⟩ := h
+  cases h0
+  exact ⟨s', p, h1, h2, h3, h4⟩
+
+/-- … and for any other scalar: untouched. -/
+theorem good_plain (C : Cipher) (old new : Str) (v v' : Scalar) (hs : isSecret v = false)
+    (h : Good C old new v v') : v' = v := by
+  unfold Good at h; simpa [hs] using h
+
+/-- Every non-encrypted key, value, ordering and anchor is unchanged: blanking the text of the
+secrets, the document after a successful rotation is the document before (same hypotheses as
+`rotate_rekeys_partial`; for a scalar or set document the rotation is the identity outright). -/
+theorem rotate_frame (C : Cipher) (old new : Str) (L : Laws C old new)
+    (tbl : Str → Option Node) (d : Node)
+    (hwf : WF C old tbl d) (hok : (rotate C old new d).2.failed = false) :
+    mask (rotate C old new d).1 = mask d := by
+  cases hd : isContainer d with
+  | true => exact mask_of_rel C old new _ _ (rotate_rekeys_partial C old new L tbl d hd hwf hok)
+  | false => cases d <;> simp [isContainer] at hd <;> rfl
+
+/-- Full statement (not proved): in the rotated document all nodes carrying one anchor name are
+equal, and the number of encryptions equals the number of distinct secrets.
+
+Proved (the two local facts the loop rests on): an encrypted scalar whose anchor has been rotated
+already takes the recorded image and causes no cipher call and no state change at all; the first
+visit of an anchored encrypted scalar records its image under its anchor.  Missing: lifting
+"recorded images are never overwritten" through the mutual recursion to the whole output. -/
+theorem rotate_once_and_shared_partial (C : Cipher) (old new : Str) (an : Str) (s : Str)
+    (hs : isEyaml s = true) (st : St) :
+    (∀ n', st.seen.lookup an = some n' →
+      rotNode C old new (.scalar (some an) (.str s)) st = (n', st)) ∧
+    (st.seen.lookup an = none →
+      (rotNode C old new (.scalar (some an) (.str s)) st).2.seen.lookup an =
+        some (rotNode C old new (.scalar (some an) (.str s)) st).1 ∧
+      (rotNode C old new (.scalar (some an) (.str s)) st).2.nonce ≤ st.nonce + 1) := by
+  constructor
+  · intro n' h
+    unfold rotNode; simp [hs, h]
+  · intro h
+    unfold rotNode
+    simp only [hs, if_true, h]
+    constructor
+    · simp
+    · simp only [rotValue]
+      split
+      · simp
+      · split
+        · simp
+        · simp only []; split <;> omega
+
+/-- A value is treated as encrypted exactly when, ignoring blanks and line breaks, it begins with
+the `ENC[` marker. -/
+theorem marker_iff (s : Str) :
+    isEyaml s = true ↔ "ENC[".toList <+: s.filter (fun c => c ≠ ' ' ∧ c ≠ '\n') := by
+  unfold isEyaml clean marker
+  rw [List.isPrefixOf_iff_prefix, List.filter_filter]
+  have : (s.filter fun a => (decide (a ≠ ' ') && decide (a ≠ '\n'))) =
+      s.filter (fun c => decide (c ≠ ' ' ∧ c ≠ '\n')) := by
+    congr 1; funext c; simp
+  rw [this]
+
+/-- A file holding no encrypted value is neither rewritten nor backed up: the rotation loop makes
+no cipher call and reports no change, and the tool's steps on the file are read-only — the file
+system afterwards is the file system before. -/
+theorem no_secret_no_io (C : Cipher) (old new : Str) (d : Node) (h : noSecret d = true) :
+    (rotate C old new d).2.changed = false ∧ (rotate C old new d).2.nonce = 0 ∧
+    (rotate C old new d).2.decs = 0 ∧
+    ∀ (fs : Save.FS) (saw isFile loadOk backup : Bool) (t : Str) (oc nc : List Save.Bytes),
+      Save.run fs (Save.runRotateFile saw isFile loadOk (rotate C old new d).2.changed backup t oc nc) = fs := by
+  have key : (rotate C old new d).2.changed = false ∧ (rotate C old new d).2.nonce = 0 ∧
+      (rotate C old new d).2.decs = 0 := by
+    cases d with
+    | scalar a v => exact ⟨rfl, rfl, rfl⟩
+    | set a ms => exact ⟨rfl, rfl, rfl⟩
+    | seq a xs => exact rotNode_noSecret C old new _ St.init h
+    | map a es => exact rotNode_noSecret C old new _ St.init h
+  refine ⟨key.1, key.2.1, key.2.2, ?_⟩
+  intro fs saw isFile loadOk backup t oc nc
+  rw [key.1]
+  apply Save.run_readOnly
+  intro s hs
+  unfold Save.runRotateFile at hs
+  cases isFile <;> cases loadOk <;> simp at hs <;> (try rcases hs with rfl | rfl) <;> (try subst hs) <;> rfl
+
+/-! ## The hypotheses are met, and the exclusions are real -/
+
+/-- the stand-in cipher on a concrete document: two secrets (one anchored and aliased), a plain
+value; the run succeeds, both secrets are re-keyed, the alias shares the image, one encryption
+per distinct secret. -/
+private def doc : Node := .map none [
+  (.str "a".toList, .scalar none (.str "plain".toList)),
+  (.str "b".toList, .scalar (some "s".toList) (.str (fakeEnc "k1".toList 0 "hi".toList))),
+  (.str "c".toList, .scalar (some "s".toList) (.str (fakeEnc "k1".toList 0 "hi".toList))),
+  (.str "d".toList, .seq none [.scalar none (.str (fakeEnc "k1".toList 0 "yo".toList))])]
+
+example : (rotate fakeCipher "k1".toList "k2".toList doc).1 = .map none [
+    (.str "a".toList, .scalar none (.str "plain".toList)),
+    (.str "b".toList, .scalar (some "s".toList) (.str (fakeEnc "k2".toList 0 "hi".toList))),
+    (.str "c".toList, .scalar (some "s".toList) (.str (fakeEnc "k2".toList 0 "hi".toList))),
+    (.str "d".toList, .seq none [.scalar none (.str (fakeEnc "k2".toList 0 "yo".toList))])] := by
+  decide +kernel
+
+example : (rotate fakeCipher "k1".toList "k2".toList doc).2.failed = false
+    ∧ (rotate fakeCipher "k1".toList "k2".toList doc).2.nonce = 2
+    ∧ (rotate fakeCipher "k1".toList "k2".toList doc).2.decs = 2 := by decide +kernel
+
+/-- the stand-in satisfies the laws on these values -/
+example : decryptValue fakeCipher "k2".toList (fakeEnc "k2".toList 0 "hi".toList) = some "hi".toList
+    ∧ decryptValue fakeCipher "k1".toList (fakeEnc "k2".toList 0 "hi".toList) = none
+    ∧ isEyaml (fakeEnc "k2".toList 0 "hi".toList) = true := by decide +kernel
+
+/-- C19-F3: a document that is one encrypted scalar is left as it is, with status 0. -/
+example : (rotate fakeCipher "k1".toList "k2".toList (.scalar none (.str (fakeEnc "k1".toList 0 "hi".toList)))).1 =
+      .scalar none (.str (fakeEnc "k1".toList 0 "hi".toList))
+    ∧ (rotate fakeCipher "k1".toList "k2".toList (.scalar none (.str (fakeEnc "k1".toList 0 "hi".toList)))).2.failed = false := by
+  decide +kernel
+
+/-- C19-F2: a plaintext that looks encrypted is stored raw (here: the inner ciphertext, still
+under the old key), with status 0. -/
+example : (rotate fakeCipher "k1".toList "k2".toList
+      (.seq none [.scalar none (.str (fakeEnc "k1".toList 0 (fakeEnc "k1".toList 0 "in".toList)))])).1 =
+    .seq none [.scalar none (.str (fakeEnc "k1".toList 0 "in".toList))] := by decide +kernel
+
+/-- the marker rule on blanks and line breaks inside and around the marker -/
+example : isEyaml " E N\nC [x".toList = true ∧ isEyaml "ENC".toList = false ∧ isEyaml "xENC[".toList = false := by
+  decide +kernel
+
+end Ypv.C19
